@@ -42,11 +42,14 @@ Definition api_check_writer (s : src) (cap : N) (short : bool) (buf written : te
 
 From RS Require Import Checkers.ChkComp.
 (* C06: composite with its children observed standalone *)
-Definition api_comp (s : src) : list event * list event * list (list event) * list (list event) :=
+(* `ws`: warm-up calls on CachedSource nodes (by cache id) made before each observation; every
+   child is observed standalone, built afresh and warmed by the calls that concern it *)
+Definition api_comp (s : src) (ws : list (N * wop)) : list event * list event * list (list event) * list (list event) :=
   let kids := match s with SConcat cs => cs | SReplace inner _ => [inner] | _ => [] end in
-  (fst (fst (stream [] s (mkOpts true false))), fst (fst (stream [] s (mkOpts false false))),
-   map (fun k => fst (fst (stream [] k (mkOpts true false)))) kids,
-   map (fun k => fst (fst (stream [] k (mkOpts false false)))) kids).
+  let st := run_warm [] s ws in
+  (fst (fst (stream st s (mkOpts true false))), fst (fst (stream st s (mkOpts false false))),
+   map (fun k => fst (fst (stream (run_warm [] k ws) k (mkOpts true false)))) kids,
+   map (fun k => fst (fst (stream (run_warm [] k ws) k (mkOpts false false)))) kids).
 Definition api_check_comp (s : src) (src_text : text) (c10 c00 : list event) (k10 k00 : list (list event)) : N :=
   chk_C06 s src_text c10 c00 k10 k00.
 
